@@ -115,7 +115,11 @@ def strategy(tier):
          # most bytes a single send() accepts
          'send_max': st.sampled_from([None, None, 1, 7, 64, 4096]),
          # another kind of client is configured in the same process first (its options must stay its own)
-         'http_builder_first': st.sampled_from([False, False, True])}
+         'http_builder_first': st.sampled_from([False, False, True]),
+         # concurrent calls: connections in the pool; how the bytes of a reply arrive: at once, or as segments 1 ms apart
+         # (sizes of the first segments, the rest follows), so that a reader blocks part-way through a prefix or a body
+         'pool_max': st.sampled_from([1, 1, 2]),
+         'segments': st.sampled_from([None, None, [3], [1, 2], [3, 1, 40], [2, 300], [5, 5, 5]])}
   return st.one_of(
       st.fixed_dictionaries(dict(env, svc=st.just('rich'), calls=st.lists(_call(), min_size=1, max_size=5))),
       st.fixed_dictionaries(dict(env, svc=st.just('rich'), calls=st.lists(_call(), min_size=1, max_size=5))),
@@ -173,6 +177,18 @@ def _run_once(plan, chunks):
     sizes['i'] += 1
     return chunks[sizes['i'] % len(chunks)]
   net.chunker = chunker
+  seg = plan.get('segments')
+  if seg:
+    def trickle(sock, data):
+      out, pos = [], 0
+      for k in seg:
+        if pos + k >= len(data):
+          break
+        out.append((0.001 if out else 0.0, data[pos:pos + k]))
+        pos += k
+      out.append((0.001 if out else 0.0, data[pos:]))
+      return out
+    net.trickle = trickle
 
   calls = plan['calls']
   cur = {'i': 0}
@@ -213,7 +229,7 @@ def _run_once(plan, chunks):
   ser = ThriftSerializerSink.Builder()
   concurrent = bool(plan.get('concurrent'))
   if concurrent:
-    pool = WatermarkPoolSink.Builder(min_watermark=1, max_watermark=1)
+    pool = WatermarkPoolSink.Builder(min_watermark=1, max_watermark=plan.get('pool_max', 1))
     ser.next_provider = pool
     pool.next_provider = SocketTransportSink.Builder()
   else:
